@@ -4,10 +4,10 @@ package c14
 
 import (
 	"bufio"
-	"os"
 	"encoding/base64"
 	"fmt"
 	"net"
+	"os"
 	"strconv"
 	"strings"
 	"testing"
@@ -183,6 +183,25 @@ func runWire(t *testing.T, r *rep.Reporter, c *rep.Case, idx int) {
 	if err != nil {
 		t.Fatalf("harness: %v", err)
 	}
+	playWire(t, r, c, idx, p, e, id, "B")
+}
+
+// runWireX: group D - the wire scenarios of group B with the environment of
+// the third widening; the user-name map stands inline in the endpoint's
+// configuration text (`auth_map regexp "..." "..." { full_match no }`).
+func runWireX(t *testing.T, r *rep.Reporter, c *rep.Case, idx int) {
+	p := prng.New(r.Seed(), uint64(idx), "c14-wire-x")
+	id := fmt.Sprintf("xw%d_%d", r.Seed(), idx)
+	e, err := newEnvX(p, id, idx-groupD)
+	if err != nil {
+		t.Fatalf("harness: %v", err)
+	}
+	defer e.close()
+	selfCheckNames(t, e.names)
+	playWire(t, r, c, idx, p, e, id, "D")
+}
+
+func playWire(t *testing.T, r *rep.Reporter, c *rep.Case, idx int, p *prng.R, e *env, id, grp string) {
 	lg := mx.NewLog()
 	tgt := mx.NewTarget("c14tgt_"+id, lg)
 	mx.RegisterInstance(tgt)
@@ -193,6 +212,9 @@ func runWire(t *testing.T, r *rep.Reporter, c *rep.Case, idx int) {
 	nacc := p.Range(2, 4)
 	for j := 0; j < nacc; j++ {
 		canon := prng.Pick(p, e.names)
+		if e.x != nil {
+			canon = e.pickAccountName(p)
+		}
 		name, vk := spell(p, canon, prng.Pick(p, variantKinds))
 		sc := prng.Pick(p, schemes)
 		pw := genPassword(p, sc.algo == pass_table.HashBcrypt)
@@ -204,6 +226,36 @@ func runWire(t *testing.T, r *rep.Reporter, c *rep.Case, idx int) {
 			rec.Err = err.Error()
 		}
 		hist = append(hist, rec)
+	}
+	if e.x != nil {
+		// third widening: make sure one member of a pattern / near-merge pair
+		// exists (often only one of the two)
+		var withPartner []string
+		for _, n := range e.names {
+			if len(e.x.uni.partner[n]) > 0 {
+				withPartner = append(withPartner, n)
+			}
+		}
+		for j := 0; j < 2 && len(withPartner) > 0; j++ {
+			canon := prng.Pick(p, withPartner)
+			if p.Bool() {
+				canon = e.pickAccountName(p)
+			}
+			if j == 1 && p.Bool() {
+				break
+			}
+			name, vk := spell(p, canon, prng.Pick(p, variantKinds))
+			sc := prng.Pick(p, schemes)
+			pw := genPassword(p, sc.algo == pass_table.HashBcrypt)
+			err := e.pt.CreateUserHash(name, pw, sc.algo, sc.opts)
+			rec := opRec{Op: "create", Name: name, Canon: canon, Variant: vk, Pw: showPw(pw), PwLen: len(pw), Scheme: sc.name}
+			if err == nil {
+				e.model.set(canon, pw, sc.name)
+			} else {
+				rec.Err = err.Error()
+			}
+			hist = append(hist, rec)
+		}
 	}
 	if ex := e.model.existing(); len(ex) > 1 && p.Chance(1, 2) {
 		canon := prng.Pick(p, ex)
@@ -248,7 +300,11 @@ func runWire(t *testing.T, r *rep.Reporter, c *rep.Case, idx int) {
 
 	var cfg strings.Builder
 	fmt.Fprintf(&cfg, "hostname mx.c14.test\ntls off\nauth &c14pt_%s\nsasl_login yes\n", id)
-	if e.nmap.tbl != nil {
+	if e.nmap.kind == mapExt {
+		if e.nmap.cfgText != "" {
+			fmt.Fprintf(&cfg, "auth_map %s\n", e.nmap.cfgText)
+		}
+	} else if e.nmap.tbl != nil {
 		fmt.Fprintf(&cfg, "auth_map &c14map_%s\n", id)
 	}
 	fmt.Fprintf(&cfg, "auth_map_normalize %s\n", e.norm)
@@ -265,8 +321,10 @@ func runWire(t *testing.T, r *rep.Reporter, c *rep.Case, idx int) {
 
 	var transcripts [][]string
 	wit := func() any {
-		return map[string]any{"config": cfg.String(), "map": e.nmap.kind.String(), "map_config": e.nmap.config,
-			"setup": hist, "transcripts": transcripts}
+		w := e.witness(hist)
+		delete(w, "history")
+		w["config"], w["setup"], w["transcripts"] = cfg.String(), hist, transcripts
+		return w
 	}
 	nontrivial := false
 	shape := []string{}
@@ -360,6 +418,23 @@ func runWire(t *testing.T, r *rep.Reporter, c *rep.Case, idx int) {
 			} else {
 				canonWanted = prng.Pick(p, e.names)
 			}
+			partnerPw, attack := "", false
+			if e.x != nil && p.Chance(1, 3) {
+				// the name of one member of a pattern / near-merge pair with the
+				// current password of the other
+				var cands [][2]string
+				for _, n := range e.names {
+					for _, y := range e.x.uni.partner[n] {
+						if ya := e.model.accts[y]; ya != nil && ya.exists {
+							cands = append(cands, [2]string{n, y})
+						}
+					}
+				}
+				if len(cands) > 0 {
+					cd := prng.Pick(p, cands)
+					canonWanted, partnerPw, attack = cd[0], e.model.accts[cd[1]].pw, true
+				}
+			}
 			canonLogin := e.nmap.invert(p, canonWanted)
 			if p.Chance(1, 5) {
 				canonLogin = canonWanted // the provider's account name, bypassing the map
@@ -378,6 +453,10 @@ func runWire(t *testing.T, r *rep.Reporter, c *rep.Case, idx int) {
 			if by := e.model.accts[canonLogin]; by != nil && by.exists && (!mapped || canonAcct != canonLogin) && p.Chance(3, 5) {
 				pw = by.pw // the password of the account that bears the supplied name
 				r.Count("wire_attempts_with_password_of_account_named_like_unmapped_or_remapped_login", 1)
+			}
+			if attack {
+				pw = partnerPw
+				r.Count("x_wire_attempts_with_password_of_partner_account", 1)
 			}
 			if s == nsteps-1 && a != nil && a.exists && p.Chance(2, 3) {
 				pw = a.pw // end most connections with a good login
@@ -448,6 +527,9 @@ func runWire(t *testing.T, r *rep.Reporter, c *rep.Case, idx int) {
 						cause = "name-has-no-mapping"
 						if _, classMapped := e.nmap.ref(canonLogin); classMapped {
 							cause = "name-spelling-not-folded-by=" + e.norm
+							if e.nmap.kind == mapExt {
+								cause = "name-has-no-mapping/spelling-or-option-of-map=" + e.nmap.name()
+							}
 						}
 					case a == nil || (!a.exists && !a.deleted):
 						cause = "account-never-existed"
@@ -462,12 +544,16 @@ func runWire(t *testing.T, r *rep.Reporter, c *rep.Case, idx int) {
 					c.Violation("wire-auth/accepted/"+cause, fmt.Sprintf("AUTH exchange of kind %s answered 235", mech), wit())
 				}
 			case !ok && expect:
-				c.Violation(fmt.Sprintf("wire-auth/refused-current-password/mech=%s/map=%s", mech, e.nmap.kind),
+				c.Violation(fmt.Sprintf("wire-auth/refused-current-password/mech=%s/map=%s", mech, e.nmap.name()),
 					fmt.Sprintf("AUTH %s answered %d for the current password of account %q", mech, code, canonAcct), wit())
 			}
 			if ok {
 				authed = true
 				nAuthOK++
+				if e.x != nil && expect {
+					r.Count("x_wire_auth_235_on_store="+e.x.backend, 1)
+					r.Count("x_wire_auth_235_via_map="+e.nmap.name(), 1)
+				}
 			} else {
 				nAuthRefused++
 				prior = "after-refused-" + mech
@@ -492,5 +578,5 @@ func runWire(t *testing.T, r *rep.Reporter, c *rep.Case, idx int) {
 	if idx == groupB {
 		r.Sample(map[string]any{"case": c.ID, "config": cfg.String(), "transcripts": transcripts})
 	}
-	c.Done("B/"+e.nmap.kind.String()+"/"+strings.Join(shape, ","), nontrivial)
+	c.Done(grp+"/"+e.nmap.name()+"/"+strings.Join(shape, ","), nontrivial)
 }
